@@ -75,6 +75,17 @@ type Net struct {
 	OnSend func(m *Msg) [][]byte
 	// Trace records every message as sent by the (honest) routers, before OnSend.
 	Trace []*Msg
+	// Roots: the objects that make up each party's memory (its runner, which holds the participant and its state),
+	// registered by the protocol cases; an adaptive deviator may edit its own (memedit).
+	Roots map[sharing.ID][]any
+}
+
+// Root registers obj as part of party id's memory.
+func (n *Net) Root(id sharing.ID, obj any) {
+	if n.Roots == nil {
+		n.Roots = map[sharing.ID][]any{}
+	}
+	n.Roots[id] = append(n.Roots[id], obj)
 }
 
 func New(parties ...sharing.ID) *Net {
